@@ -142,6 +142,17 @@ def main():
     except Exception as e:
         infra_error = traceback.format_exc()
 
+    # fixed findings are regression inputs: they suppress nothing and are reported again if they return
+    if hasattr(mod, 'replay_known') and not infra_error:
+        for k in load_known_findings():
+            if k.get('property') == prop and k.get('status') == 'fixed':
+                try:
+                    if mod.replay_known(ctx, k):
+                        w = (k.get('witnesses') or [{}])[0]
+                        ctx.fail('regression of fixed finding %s (%s)' % (k['id'], k.get('fixed_commit')), w.get('input'),
+                                 observed='fails again', required=w.get('required_count', w.get('required')))
+                except Exception as e:
+                    ctx.notes.append('replay of fixed finding %s raised %r' % (k['id'], e))
     # known findings
     kf = [k for k in load_known_findings() if k.get('property') == prop and k.get('status') == 'open']
     kf_lines = []
